@@ -324,6 +324,22 @@ theorem auto_snapshot_iff_full (exit : Int) (enabled f d s k : Bool) :
       exit = Generated.exitSuccess ∧ enabled = true ∧ f = false ∧ d = false ∧ s = false ∧ k = false := by
   simp [autoSnapshotRuns', autoSnapshotRuns]; constructor <;> (intro h; simp_all)
 
+/-- a run that any argument narrows to a part of the project — another scan target, `--include`,
+    `--exclude`, `--ext` — never snapshots either (repaired in 179de33: `check src` used to record
+    the totals of `src` as the project's) -/
+theorem narrowed_run_never_snapshots (exit : Int) (enabled f d s k inc exc ext root : Bool)
+    (h : inc = true ∨ exc = true ∨ ext = true ∨ root = false) :
+    autoSnapshotRuns'' exit enabled f d s k inc exc ext root = false := by
+  rcases h with h | h | h | h <;> subst h <;> simp [autoSnapshotRuns'', narrowedByArguments]
+
+/-- exactly the passing, enabled, whole-project runs snapshot -/
+theorem auto_snapshot_iff_whole (exit : Int) (enabled f d s k inc exc ext root : Bool) :
+    autoSnapshotRuns'' exit enabled f d s k inc exc ext root = true ↔
+      exit = Generated.exitSuccess ∧ enabled = true ∧ f = false ∧ d = false ∧ s = false ∧
+        k = false ∧ inc = false ∧ exc = false ∧ ext = false ∧ root = true := by
+  simp [autoSnapshotRuns'', narrowedByArguments, autoSnapshotRuns', autoSnapshotRuns]
+  constructor <;> (intro h; simp_all)
+
 /-- What remains false of the pinned code ("totals of the whole project as `stats summary`
     reports them"): the check hands over the totals of the files that pass `should_process`,
     so files matched by `content.exclude` are missing from an auto-snapshot although
